@@ -798,13 +798,13 @@ func (av *Array) privateReducedType() *ArrayType {
 		if top == 0 {
 			av.reducedType = EmptyArrayType()
 		} else {
-			av.reducedType = NewArrayType(DefaultAnyType(), NewIntegerType(int64(top), int64(top)))
-			verifhook.Point("array.reduced.window")
 			elemType := av.elements[0].PType()
 			for idx := 1; idx < top; idx++ {
 				elemType = commonType(elemType, av.elements[idx].PType())
 			}
-			av.reducedType.typ = elemType
+			verifhook.Point("array.reduced.window")
+			// stored when it is complete: the value may be shared with other go routines
+			av.reducedType = NewArrayType(elemType, NewIntegerType(int64(top), int64(top)))
 		}
 	}
 	return av.reducedType
